@@ -119,7 +119,8 @@ package core
 // settleGas: the running budget came from initRuntimeGasBudget and was only changed by
 // operations that conserve K1 and K2, so K1 + K2 + intrinsic == GasLimit; we only need "<=".
 //@ func (st *stateTransition) settleGas(rules params.Rules, floorDataGas uint64) (gasUsed, peakUsed uint64, err error)
-//@   serves C31
+//@   serves C31 C32
+//@   requires st.msg.GasPrice != nil
 //@   requires vm.K1(st.gasRemaining) + vm.K2(st.gasRemaining) <= st.msg.GasLimit
 //@   requires floorDataGas <= st.msg.GasLimit
 //@   requires st.msg.GasLimit <= MAXGAS()
@@ -132,6 +133,9 @@ package core
 //@   ensures err == nil && rules.IsAmsterdam ==> st.gp.cumulativeUsed == old(st.gp.cumulativeUsed) + gasUsed
 //@   ensures err == nil && !rules.IsAmsterdam ==> st.gp.cumulativeUsed == old(st.gp.cumulativeUsed) + gasUsed && st.gp.remaining == old(st.gp.remaining) + (st.msg.GasLimit - gasUsed)
 //@   mutates
+//@   linear
+//@   atcall AddBalance#1 requires u256val(arg2) == ((st.msg.GasLimit - gasUsed) * old(u256val(st.msg.GasPrice))) % 115792089237316195423570985008687907853269984665640564039457584007913129639936
+//@   atcall AddBalance#1 requires st.msg.GasLimit * old(u256val(st.msg.GasPrice)) < 115792089237316195423570985008687907853269984665640564039457584007913129639936 ==> u256val(arg2) == (st.msg.GasLimit - gasUsed) * old(u256val(st.msg.GasPrice))
 //@   atcall ChargeGasLegacy#1 requires arg2 + arg3 == st.msg.GasLimit
 //@   atcall ChargeGasAmsterdam#1 requires arg4 == gasUsed && arg3 <= st.msg.GasLimit && arg2 <= st.msg.GasLimit
 //@   modifies *st.gp
@@ -181,3 +185,73 @@ package core
 //@   ensures (err == nil) == (floorSpec(rules.IsAmsterdam, base2780Spec(to == nil, to != nil && *to == from, value != nil && u256val(value) != 0), len(data), bytecount(data, 0), len(accessList), types.storageKeysOf(accessList)) <= 18446744073709551615)
 //@   ensures err != nil ==> err == ErrGasUintOverflow && gas == 0
 //@   nowrap
+
+// ---------------------------------------------------------------------------
+// C32: fee arithmetic at the balance-changing call sites (core/state_transition.go)
+// ---------------------------------------------------------------------------
+
+//@ func (st *stateTransition) blobGasUsed() (g uint64)
+//@   serves C32
+//@   ensures g == len(st.msg.BlobHashes) * 131072
+//@   nowrap
+
+// What buyGas debits: gas limit x gas price, plus blob gas x blob base fee under Cancun.
+//@ pure func blobGasOf(st *stateTransition) int { return len(st.msg.BlobHashes) * 131072 }
+
+// buyGas: on success exactly one debit is made, of exactly the prepaid fee, and only after
+// the balance was checked against the worst-case fee; nothing wraps in 256 bits.
+//@ func (st *stateTransition) buyGas() (err error)
+//@   serves C32
+//@   requires st.msg.GasPrice != nil
+//@   requires bigval(st.evm.Context.BlobBaseFee) >= 0
+//@   mutates
+//@   linear
+//@   atcall SubBalance#1 requires u256val(arg2) == st.msg.GasLimit * old(u256val(st.msg.GasPrice)) + ite(observe(IsCancun, st.evm.chainConfig, st.evm.Context.BlockNumber, st.evm.Context.Time) && blobGasOf(st) > 0, blobGasOf(st) * bigval(st.evm.Context.BlobBaseFee), 0)
+//@   atcall SubBalance#1 requires u256val(have) >= st.msg.GasLimit * ite(st.msg.GasFeeCap != nil, old(u256val(st.msg.GasFeeCap)), old(u256val(st.msg.GasPrice))) + ite(st.msg.Value != nil, old(u256val(st.msg.Value)), 0) + ite(observe(IsCancun, st.evm.chainConfig, st.evm.Context.BlockNumber, st.evm.Context.Time) && blobGasOf(st) > 0, blobGasOf(st) * old(u256val(st.msg.BlobGasFeeCap)), 0)
+//@   atcall SubBalance#1 requires u256val(arg2) < 115792089237316195423570985008687907853269984665640564039457584007913129639936
+
+// ---------------------------------------------------------------------------
+// C31/C32: the transaction driver (core/state_transition.go: execute)
+// ---------------------------------------------------------------------------
+
+//@ directive pure-observer (*github.com/ethereum/go-ethereum/params.ChainConfig).Rules
+//@ directive pure-observer core/vm.StateDB).Exist
+//@ directive pure-observer funcfield:BlockContext.CanTransfer
+//@ directive readonly-args core/vm.StateDB).Prepare
+
+//@ func (st *stateTransition) preCheck(rules params.Rules) (err error)
+//@   serves C31
+//@   trusted frame only: preCheck validates the message against the state database, buys gas (buyGas, under contract) and reserves block gas; its body is not yet under contract
+//@   modifies st.gp.remaining
+//@   mutates
+
+//@ func (st *stateTransition) executeCall(rules params.Rules, value *uint256.Int) (ret []byte, vmerr error)
+//@   serves C31
+//@   trusted the frame functions of package vm conserve K1 and K2 of the budget they are given (verified separately for EVM.Call/create under C29/C31 contracts); the interpreter loop itself is out of reach
+//@   requires vm.ranged(st.gasRemaining)
+//@   modifies st.gasRemaining
+//@   mutates
+//@   ensures vm.K1(st.gasRemaining) == old(vm.K1(st.gasRemaining)) && vm.K2(st.gasRemaining) == old(vm.K2(st.gasRemaining))
+
+//@ func (st *stateTransition) executeCreate(rules params.Rules, value *uint256.Int) (ret []byte, vmerr error)
+//@   serves C31
+//@   trusted the frame functions of package vm conserve K1 and K2 of the budget they are given (verified separately for EVM.Call/create under C29/C31 contracts); the interpreter loop itself is out of reach
+//@   requires vm.ranged(st.gasRemaining)
+//@   modifies st.gasRemaining
+//@   mutates
+//@   ensures vm.K1(st.gasRemaining) == old(vm.K1(st.gasRemaining)) && vm.K2(st.gasRemaining) == old(vm.K2(st.gasRemaining))
+
+// execute: a transaction never uses more gas than its limit, the peak is at least the final
+// usage, and the fee recipient is credited exactly gas used x effective tip.
+//@ func (st *stateTransition) execute() (res *ExecutionResult, err error)
+//@   serves C31 C32
+//@   requires st.msg.GasPrice != nil && st.msg.GasLimit <= vm.TMAX()
+//@   requires poolInvA(st.gp) && st.gp.cumulativeUsed + st.msg.GasLimit <= 18446744073709551615
+//@   requires bigval(st.evm.Context.BaseFee) >= 0 && bigval(st.evm.Context.BaseFee) <= u256val(st.msg.GasPrice)
+//@   requires st.msg.GasLimit * u256val(st.msg.GasPrice) < 115792089237316195423570985008687907853269984665640564039457584007913129639936
+//@   ensures err == nil ==> res != nil && res.UsedGas <= st.msg.GasLimit && res.MaxUsedGas >= res.UsedGas && res.MaxUsedGas <= st.msg.GasLimit
+//@   atcall AddBalance#1 requires old(observe(Rules, st.evm.chainConfig, st.evm.Context.BlockNumber, st.evm.Context.Random != nil, st.evm.Context.Time).IsLondon) ==> u256val(arg2) == gasUsed * (old(u256val(st.msg.GasPrice)) - old(bigval(st.evm.Context.BaseFee)))
+//@   atcall AddBalance#1 requires !old(observe(Rules, st.evm.chainConfig, st.evm.Context.BlockNumber, st.evm.Context.Random != nil, st.evm.Context.Time).IsLondon) ==> u256val(arg2) == gasUsed * old(u256val(st.msg.GasPrice))
+//@   modifies st.gasRemaining, *st.gp, *st.evm.AccessEvents
+//@   mutates
+//@   linear
